@@ -54,7 +54,7 @@ class Layout:
 def isagg(t): return t.k in ('struct', 'arr')
 
 class Flat:
-    in_ginit = False; prune_init = True; nsw = False; heap = 1024; pagewords = 32; extra_fns = {}
+    in_ginit = False; prune_init = True; nsw = False; heap = 1024; pagewords = 32; extra_fns = {}; select_branch = False
     def __init__(s, mod, stubs, visible_stubs=(), seq=False, nthreads=4, noglobal=()):
         s.noglobal = set(noglobal); s.blocking = set(); s.icall_only = set(); s.frames_info = []; s.frame_init = {}
         s.m = mod; s.L = Layout(mod); s.stubs = set(stubs); s.vis = set(visible_stubs); s.seq = seq; s.nt = nthreads
@@ -447,7 +447,10 @@ class Flat:
                 sz *= d['n'][1][1]
             al = max(al, 8); s.cur_frame = (s.cur_frame + al - 1) // al * al; off = s.cur_frame; s.cur_frame += max(sz, 8)
             return '%s = ir_fp + %dull;' % (r, off)
-        if op == 'select': return '%s = %s ? %s : %s;' % (r, V(INT(1), d['c']), V(d['t'], d['a']), V(d['t'], d['b']))
+        if op == 'select':
+            if s.select_branch and s.res(d['t']).k == 'ptr':   # path-wise exploration: a select between two POINTERS becomes control flow, so that the pointer is concrete on each path (LLVM's simplifycfg turns small if-bodies into selects)
+                return 'if (%s) %s = %s; else %s = %s;' % (V(INT(1), d['c']), r, V(d['t'], d['a']), r, V(d['t'], d['b']))
+            return '%s = %s ? %s : %s;' % (r, V(INT(1), d['c']), V(d['t'], d['a']), V(d['t'], d['b']))
         if op == 'freeze': return '%s = %s;' % (r, V(d['t'], d['a']))
         if op == 'br':
             if 'dest' in d: return edge(bl, d['dest'])
